@@ -268,6 +268,41 @@ def comparator_batch_chunk(job):
     return n, bad
 
 
+def frame_case(job):
+    """RSMIDecomposer.data_decomposer on a batch given as list of dicts and as DataFrame with a default, a permuted,
+    a filtered (labels missing) and a duplicated index, parallel and not: row k of the answer is the composition of row k"""
+    import pandas as pd
+
+    from synrbl.SynProcessor import RSMIDecomposer
+
+    sides = job
+    rows = [{"reactants": a, "products": b} for a, b in sides]
+    want = ([RSMIDecomposer.decompose(a) for a, _ in sides], [RSMIDecomposer.decompose(b) for _, b in sides])
+    n = len(rows)
+    frames = {"list": rows, "frame": pd.DataFrame(rows)}
+    if n > 1:
+        frames["permuted-index"] = pd.DataFrame(rows, index=list(range(n))[::-1])
+        frames["shifted-index"] = pd.DataFrame(rows, index=[i + 1 for i in range(n)])
+        frames["duplicated-index"] = pd.DataFrame(rows, index=[0] * n)
+        frames["filtered"] = pd.DataFrame(rows + rows)[lambda d: d.index % 2 == 1]
+        frames["text-index"] = pd.DataFrame(rows, index=["r{}".format(i) for i in range(n)])
+    bad = []
+    k = 0
+    for name, data in frames.items():
+        w = want if name != "filtered" else ([want[0][i % n] for i in range(1, 2 * n, 2)], [want[1][i % n] for i in range(1, 2 * n, 2)])
+        for parallel in (False, True):
+            k += 1
+            try:
+                got = RSMIDecomposer(smiles=None, data=data, reactant_col="reactants", product_col="products", parallel=parallel,
+                                     n_jobs=1, verbose=0).data_decomposer()
+                got = ([dict(d) for d in got[0]], [dict(d) for d in got[1]])
+            except Exception as e:
+                got = "raises {}: {}".format(type(e).__name__, str(e)[:80])
+            if got != w:
+                bad.append({"sides": [list(x) for x in sides], "input": name, "parallel": parallel, "got": got, "want": w})
+    return k, bad
+
+
 def _key_decomp(case):
     want, got = case["want"], case["got"]
     if "Unknown" in got:
@@ -370,9 +405,24 @@ def run(tier, seed):
                               ["comparator", "batch", b["mode"]],
                               "run_parallel on the batch {} ({} comparator) gives {} but row by row {}".format(
                                   b["batch"], b["mode"], b["got"], b["want"])))
+    fsides = ["CCO", "CC=O", "O", "CC(=O)[O-].[Na+]", "[NH3+]CC(=O)[O-]"]
+    fjobs = [[(a, b)] for a in fsides for b in fsides] + [[(a, b), (c, a)] for a in fsides for b in fsides for c in fsides if b != c] + \
+            [[(a, b), (b, c), (c, a)] for a in fsides[:4] for b in fsides[:4] for c in fsides[:4] if len({a, b, c}) == 3]
+    r6 = pmap("checks.c07:frame_case", fjobs, chunk=20, seed=seed)
+    n_frames = sum(n for n, _ in r6)
+    nf = 0
+    for _, bad in r6:
+        for b in bad:
+            nf += 1
+            if nf <= 6:
+                res.add(Violation("decomposer-batch", {"sides": b["sides"], "input": b["input"], "parallel": b["parallel"]}, b["got"], b["want"],
+                                  ["decompose", "batch", b["input"]],
+                                  "data_decomposer on {} given as {} (parallel={}) gives {} want {}".format(
+                                      b["sides"], b["input"], b["parallel"], b["got"], b["want"])))
     res.coverage = {
+        "decomposer_batches": n_frames,
         "comparator_batches": n_batches,
-        "evaluations": len(r1) + len(r2) + 4 * len(r2b) + len(r3) + len(r3b) + n_pairs + n_batches,
+        "evaluations": len(r1) + len(r2) + 4 * len(r2b) + len(r3) + len(r3b) + n_pairs + n_batches + n_frames,
         "distinct_nontrivial": n_valid + len(mixes) + len(pairs) + len(bpairs) + n_pairs,
         "carbon_batches": len(bpairs),
         "rule": "distinct SMILES that RDKit parses (corpus molecules, every element Z=1..118 "
@@ -381,7 +431,7 @@ def run(tier, seed):
                 "all ordered pairs of sides for the carbon label (plus a ladder of sides with n, n+-1 carbon atoms, n up to 10001, as one chain / many molecules), and all ordered pairs of reactions over a side "
                 "alphabet with repeated molecules checked by one checker instance; all {}x{} pairs of "
                 "composition dicts over C,H,O in 0..2 and Q in -2..2 for the comparator; every one- and two-row batch over all ordered pairs of 12 dicts "
-                "(elements / charges on one side, in one row only) through run_parallel on fresh comparators and in sequence on one comparator. "
+                "(elements / charges on one side, in one row only) through run_parallel on fresh comparators and in sequence on one comparator; batches of 1..3 rows through RSMIDecomposer.data_decomposer as list of dicts and as DataFrame with default / permuted / shifted / duplicated / filtered / textual index. "
                 "Non-trivial = parses (every case exercises the accounting).".format(
                     len(MIX_ALPHABET), k, nd, nd),
         "samples": [mols[0], mols[len(mols) // 2], mols[-1], ".".join(mixes[-1]),
@@ -420,6 +470,12 @@ def replay(v):
         r = carbon_batch_case([tuple(x.split(">>")) for x in v.case])
         if isinstance(r, list):
             out.append(Violation(v.sub, v.case, r[0], None, v.key, "carbon label in batch"))
+    elif v.sub == "decomposer-batch":
+        _, bad = frame_case([tuple(x) for x in v.case["sides"]])
+        for b in bad:
+            if b["input"] == v.case["input"] and b["parallel"] == v.case["parallel"]:
+                out.append(Violation(v.sub, v.case, b["got"], b["want"], v.key, "data_decomposer on a batch"))
+                break
     elif v.sub == "comparator-batch":
         _, bad = comparator_batch_chunk((v.case["lo"], v.case["hi"]))
         for b in bad:
